@@ -84,14 +84,16 @@ static void dep_kdf_b(const uint8_t *pw, size_t pwlen, const uint8_t *salt, size
     E_kdf_table = 1; dep_kdf(pw, pwlen, salt, saltlen, iters, key, keylen); E_kdf_table = 0;
     if (saltlen == 16 && !E_kdf_hook) for (size_t i = 0; i < keylen; i++) key[i] ^= 0x5A;     /* table B's KDF is a different function */
 }
+static int mz_table;
 static void dep_memzero(void *const p, const size_t n) {
-    E.n_mz++; logc('Z');
+    E.n_mz++; E.n_mz_tab[mz_table]++; logc('Z');
     if (E.nmz < 32) { E.mz[E.nmz].p = p; E.mz[E.nmz].n = n; E.nmz++; }
     volatile uint8_t *q = p;
     for (size_t i = 0; i < n; i++) q[i] = 0;
     for (int i = 0; i < E.nlive; i++)
         if ((char *)p <= (char *)E.live[i].p && (char *)p + n >= (char *)E.live[i].p + E.live[i].n) E.live[i].wiped = 1;
 }
+static void dep_memzero_b(void *const p, const size_t n) { mz_table = 1; dep_memzero(p, n); mz_table = 0; }
 /* The output buffer belongs to the callee: like a normaliser that clears its result first, these scribble over the
  * whole polyseed_str before they read their input.  A caller that passes overlapping buffers, or a buffer smaller
  * than a polyseed_str, is thereby exposed (the latter to ASan). */
@@ -127,17 +129,20 @@ static void ledger_free(void *p) {
     }
     E.err_foreign_free++;               /* unknown or repeated pointer: do not touch it */
 }
-static void *dep_alloc(size_t n) { E.n_alloc++; logc('A'); return ledger_alloc(n); }
-static void dep_free(void *p) { E.n_free++; logc('F'); ledger_free(p); }
+static void *dep_alloc(size_t n) { E.n_alloc++; E.n_alloc_tab[0]++; logc('A'); return ledger_alloc(n); }
+static void dep_free(void *p) { E.n_free++; E.n_free_tab[0]++; logc('F'); ledger_free(p); }
+/* table B has its own entry points (same ledger): which table's functions were called is observable */
+static void *dep_alloc_b(size_t n) { E.n_alloc++; E.n_alloc_tab[1]++; logc('A'); return ledger_alloc(n); }
+static void dep_free_b(void *p) { E.n_free++; E.n_free_tab[1]++; logc('F'); ledger_free(p); }
 /* the library's references to libc malloc/free/time are renamed to these by the build */
 void *ps_libc_malloc(size_t n) { E.n_libc_malloc++; logc('m'); return ledger_alloc(n); }
 void ps_libc_free(void *p) { E.n_libc_free++; logc('f'); ledger_free(p); }
-#define LIBC_TIME_VALUE ((time_t)1700000000)
-time_t ps_libc_time(time_t *t) { E.n_libc_time++; logc('t'); if (t) *t = LIBC_TIME_VALUE; return LIBC_TIME_VALUE; }
+time_t E_libc_time_value = (time_t)1700000000;      /* what the C library's clock reads (the library's reference to time() is renamed to this function) */
+time_t ps_libc_time(time_t *t) { E.n_libc_time++; logc('t'); if (t) *t = E_libc_time_value; return E_libc_time_value; }
 
 const polyseed_dependency DEPS[2] = {
     { rand_a, dep_kdf, dep_memzero, dep_nfc, dep_nfkd, time_a, dep_alloc, dep_free },
-    { rand_b, dep_kdf_b, dep_memzero, dep_nfc, dep_nfkd, time_b, dep_alloc, dep_free },
+    { rand_b, dep_kdf_b, dep_memzero_b, dep_nfc, dep_nfkd, time_b, dep_alloc_b, dep_free_b },
 };
 void deps_variant(int t, int nt, int na, int nf, polyseed_dependency *o) {
     *o = DEPS[t];
@@ -149,7 +154,7 @@ void inject(int t) { polyseed_dependency d = DEPS[t]; polyseed_inject(&d); memse
 
 void env_clear_log(void) {
     E.n_rand = E.n_time = E.n_alloc = E.n_free = E.n_mz = E.n_kdf = E.n_nfc = E.n_nfkd = 0;
-    E.n_libc_malloc = E.n_libc_free = E.n_libc_time = 0;
+    E.n_libc_malloc = E.n_libc_free = E.n_libc_time = 0; E.n_alloc_tab[0] = E.n_alloc_tab[1] = E.n_free_tab[0] = E.n_free_tab[1] = E.n_mz_tab[0] = E.n_mz_tab[1] = 0;
     E.ncalls = 0; E.calls[0] = 0; E.nmz = 0; E.alloc_seq = 0;
     E.err_foreign_free = E.err_free_dirty = E.err_free_unwiped = E.err_free_null = 0;
     E.last_rand_n = 0; E.last_rand_p = NULL; E.last_alloc_n = 0; E.last_alloc_p = NULL; E.last_table = -1;
@@ -168,11 +173,13 @@ int ledger_live(void) { return E.nlive; }
 void ledger_drop_all(void) { for (int i = 0; i < E.nlive; i++) free(E.live[i].p); E.nlive = 0; }
 
 /* ------------------------------------------------------------------ observation */
+static const unsigned OBS_HI_MASKS[4] = { 0xFFFFFFFFu, 0x10, 0x18, 0xF9 };
 void observe(const polyseed_data *s, unsigned coin, obs *o) {
     memset(o, 0, sizeof *o);
     polyseed_store(s, o->store);
     o->birthday = polyseed_get_birthday(s);
     for (unsigned m = 0; m < 8; m++) o->feat[m] = polyseed_get_feature(s, m);
+    for (unsigned m = 0; m < 4; m++) o->feat[8 + m] = polyseed_get_feature(s, OBS_HI_MASKS[m]);
     o->enc = polyseed_is_encrypted(s);
     uint8_t key[32];
     unsigned long before = E.n_kdf;
@@ -193,6 +200,7 @@ int obs_matches_ref(const obs *o, const rseed *r, unsigned coin, char *why, size
     if (memcmp(st, o->store, 32)) { char a[65], b[65]; hex(st, 32, a); hex(o->store, 32, b); BAD("store %s expected %s", b, a); }
     if (o->birthday != ref_birthday_time(r->birthday)) BAD("birthday %llu expected %llu", (unsigned long long)o->birthday, (unsigned long long)ref_birthday_time(r->birthday));
     for (unsigned m = 0; m < 8; m++) if (o->feat[m] != (r->features & m & 7)) BAD("get_feature(%u)=%u expected %u", m, o->feat[m], r->features & m & 7);
+    for (unsigned m = 0; m < 4; m++) if (o->feat[8 + m] != (r->features & OBS_HI_MASKS[m] & 7)) BAD("get_feature(%#x)=%u expected %u (only the three user bits are ever reported)", OBS_HI_MASKS[m], o->feat[8 + m], r->features & OBS_HI_MASKS[m] & 7);
     if (o->enc != ((r->features >> 4) & 1)) BAD("is_encrypted=%d", o->enc);
     if (o->kdf_pwlen != 32 || o->kdf_saltlen != 32 || o->kdf_iters != 10000 || o->kdf_keylen != 32) BAD("kdf lengths pw=%zu salt=%zu iters=%llu keylen=%zu", o->kdf_pwlen, o->kdf_saltlen, (unsigned long long)o->kdf_iters, o->kdf_keylen);
     if (memcmp(o->kdf_pw, pw, 32)) BAD("kdf password differs");
